@@ -62,7 +62,7 @@ class NSEC3(dns.rdata.Rdata):
         self.next = self._as_bytes(next, True, 255)
         if not isinstance(windows, Bitmap):
             windows = Bitmap(windows)
-        self.windows = tuple(windows.windows)
+        self.windows = tuple((window, octets) for window, octets in windows.windows)
 
     def _next_text(self):
         next = base64.b32encode(self.next).translate(b32_normal_to_hex).lower().decode()
